@@ -334,10 +334,17 @@ class PPO(RLAlgorithm):
         :rtype: Tuple[ArrayOrTensor, torch.Tensor, torch.Tensor, torch.Tensor]
         """
         obs = self.preprocess_observation(obs)
+
+        # Inference mode: the result for one observation must not depend on the
+        # other observations of the batch (BatchNorm in image encoders)
+        self.actor.eval()
+        self.critic.eval()
         with torch.no_grad():
             action, log_prob, entropy, values = self._get_action_and_values(
                 obs, action_mask
             )
+        self.actor.train()
+        self.critic.train()
 
         # Use -log_prob as entropy when squashing output in continuous action spaces
         entropy = -log_prob.mean() if entropy is None else entropy
